@@ -926,34 +926,33 @@ func (vfs *MemFS) rename(oldpath, newpath string) (again bool, err error) {
 		return false, nil
 	}
 
-	switch oChild.(type) {
-	case *dirNode:
-		if nChild != nil {
-			if vfs.OSType() == avfs.OsWindows {
-				nErr = avfs.ErrWinAccessDenied
-			}
+	if nChild != nil {
+		_, oIsDir := oChild.(*dirNode)
+		_, nIsDir := nChild.(*dirNode)
 
-			return false, &os.LinkError{Op: op, Old: oldpath, New: newpath, Err: nErr}
+		var err error
+
+		switch {
+		case nIsDir:
+			// an existing directory is never replaced (see os.Rename).
+			err = vfs.err.FileExists
+		case oIsDir:
+			// a directory can't replace a file or a symbolic link.
+			err = vfs.err.NotADirectory
 		}
 
-	case *fileNode:
-		if nChild == nil {
-			break
-		}
-
-		switch nc := nChild.(type) {
-		case *fileNode:
-			nc.mu.Lock()
-			nc.delete()
-			nc.mu.Unlock()
-		default:
-			err := error(avfs.ErrFileExists)
+		if err != nil {
 			if vfs.OSType() == avfs.OsWindows {
 				err = avfs.ErrWinAccessDenied
 			}
 
 			return false, &os.LinkError{Op: op, Old: oldpath, New: newpath, Err: err}
 		}
+
+		// a file or a symbolic link is replaced.
+		nChild.Lock()
+		nChild.delete()
+		nChild.Unlock()
 	}
 
 	nParent.addChild(nPart, oChild)
